@@ -26,16 +26,17 @@ func (core *JApiCore) processContext(d *directive.Directive, root *[]*directive.
 				core.currentContextDirective.Type() == directive.URL
 
 			if isURL {
-				if core.HasUnclosedExplicitContext() {
+				// A method with its own path does not belong to the URL: it ends the
+				// URL's context and is placed like any other directive further out.
+				if core.currentContextDirective.HasExplicitContext {
 					return d.KeywordError(fmt.Sprintf(
 						"%s %q with the \"Path\" parameter",
 						jerr.IncorrectContextOfDirective,
 						d.String(),
 					))
 				}
-				*root = append(*root, d)
-				core.currentContextDirective = d
-				return nil
+				core.currentContextDirective = core.currentContextDirective.Parent
+				continue
 			}
 
 			d.Parent = core.currentContextDirective
